@@ -77,6 +77,8 @@ type FuncCtx struct {
 	localObjs []localObj
 	noUserInv bool
 	mu       sync.Mutex
+	interior map[string]*Ptr
+	gerrIdx  int
 	addingAxioms bool
 	axiomDone map[int]bool
 	rootFn   *ssa.Function
